@@ -649,6 +649,11 @@ def expr_tree(draw):
             ["Product", [ex, ["Power", ex, ["Var", nm()]]]],
             ["Sum", [ex, ["Call", ["Var", nm()], [ex]], ex]],
             ["If", ["Comparison", ex, "<", ["Var", nm()]], ex, sm()])))
+    elif c == 11:
+        # what parse("f((a, b), [c, d])") returns: the parser's own list / tuple
+        # subclasses as call arguments (the list one is hashable)
+        ex = ["Call", ["Var", nm()],
+              [["ParsedTuple", [ex, sm()]], ["ParsedList", [sm(), ["Var", nm()]]]]]
     if ex[0] in ("Const", "Tuple", "List", "NpArray"):
         ex = ["Sum", [ex, ["Var", nm()]]]     # the pickled root is an expression node
     return ex
